@@ -168,3 +168,69 @@ package cryptoutils
 //@   trusted
 //@   ensures len(result) == length && fresh(result)
 //@   assigns nothing
+
+// ---------------------------------------------------------------- elliptic-curve helpers (C04, C06, C14)
+// A usable point has both coordinates (NewEcPoint, DecodeX962EcPoint, DoEcDh and the key generator establish this).
+//@ pred okPoint(p *EcPoint) { p != nil && p.X != nil && p.Y != nil && p.X.val >= 0 && p.Y.val >= 0 }
+
+//@ func NewEcPoint
+//@   props C04 C06 C14 C12
+//@   ensures result != nil && fresh(result) && result.X != nil && result.Y != nil && fresh(result.X) && fresh(result.Y)
+//@   ensures "coordinates": result.X.val == beS(x) && result.Y.val == beS(y)
+//@   assigns nothing
+//@   safety all
+
+//@ func (ec EcPoint) Equal
+//@   props C04 C06 C14 C12
+//@   requires ec.X != nil && ec.Y != nil && ec2.X != nil && ec2.Y != nil && ec.X.val >= 0 && ec.Y.val >= 0 && ec2.X.val >= 0 && ec2.Y.val >= 0
+//@   ensures "same-point": result == (ec.X.val == ec2.X.val && ec.Y.val == ec2.Y.val)
+//@   assigns nothing
+//@   safety all
+
+//@ func EncodeX962EcPoint
+//@   props C04 C06 C14 C12
+//@   requires ec != nil && point != nil && point.X != nil && point.Y != nil
+//@   ensures "uncompressed-point": result === x962(ref(ec), point.X.val, point.Y.val) && fresh(result)
+//@   assigns nothing
+//@   safety all
+
+//@ func DecodeX962EcPoint
+//@   props C04 C06 C14 C12
+//@   requires ec != nil
+//@   ensures "on-curve-decoding": (result1 == nil) == x962ok(ref(ec), data)
+//@   ensures "point": result1 == nil ==> result0 != nil && result0.X != nil && result0.Y != nil && fresh(result0) && fresh(result0.X) && fresh(result0.Y)
+//@   ensures "coordinates": result1 == nil ==> result0.X.val == x962X(ref(ec), data) && result0.Y.val == x962Y(ref(ec), data) && result0.X.val >= 0 && result0.Y.val >= 0
+//@   ensures result1 != nil ==> result0 == nil
+//@   assigns nothing
+//@   safety all
+
+// ECDH: the shared point is localPrivate * remotePublic.
+//@ func DoEcDh
+//@   props C04 C06 C14 C12
+//@   requires ec != nil && remotePublic != nil && remotePublic.X != nil && remotePublic.Y != nil
+//@   ensures result != nil && fresh(result) && result.X != nil && result.Y != nil && fresh(result.X) && fresh(result.Y)
+//@   ensures "shared-point": result.X.val == ecMulX(ref(ec), remotePublic.X.val, remotePublic.Y.val, beS(localPrivate))
+//@        && result.Y.val == ecMulY(ref(ec), remotePublic.X.val, remotePublic.Y.val, beS(localPrivate))
+//@   assigns nothing
+//@   safety all
+
+// FE2OS (TR-03111 3.1.3): fixed-length octet string of a field element.
+//@ spec func fieldLen(c ref) int { (curveBits(c) + 7) / 8 }
+// every field element fits the field width
+//@ lemma field_element_width: forall c int, v int :: 0 <= v && v < curveP(c) ==> blen(v) <= fieldLen(c)
+//@   props C04 C06 C14
+//@ func EcFieldElementBytes
+//@   props C04 C06 C14 C12
+//@   requires ec != nil && x != nil
+//@   ensures "value": x.val >= 0 ==> beS(result) == x.val
+//@   ensures "fixed-width": 0 <= x.val && blen(x.val) <= fieldLen(ref(ec)) ==> len(result) == fieldLen(ref(ec))
+//@   ensures "fe2os": 0 <= x.val && blen(x.val) <= fieldLen(ref(ec)) ==> result === fe2os(x.val, fieldLen(ref(ec)))
+//@   ensures fresh(result)
+//@   assigns nothing
+//@   safety all
+
+// The key generator is a parameter of the protocol objects: any function returning a scalar and a point with both coordinates.
+//@ func (f KeyGeneratorEcFn) call(ec elliptic.Curve) (result EcKeypair)
+//@   trusted
+//@   ensures okPoint(result.Pub) && fresh(result.Pub) && fresh(result.Pri) && fresh(result.Pub.X) && fresh(result.Pub.Y)
+//@   assigns nothing
